@@ -1,8 +1,12 @@
 #!/bin/sh
-# usage: tools_try.sh <patch.diff> <Cxx> [tier]   apply a seeded change to /repo, run the check, undo it
+# usage: tools_try.sh <patch.diff> <Cxx> [tier]
+# Applies a seeded change to a scratch worktree of /repo (never to /repo itself), runs the check against it, removes the worktree.
 P=$1; C=$2; T=${3:-quick}
-git -C /repo apply "$P" || { echo "patch does not apply"; exit 3; }
-python3 /verif/run.py $C $T > /tmp/try.$$.log 2>&1; rc=$?
-git -C /repo checkout -- . ; git -C /repo clean -fdq
-grep -c VIOLATION /tmp/try.$$.log | sed "s/^/violations: /"; grep -m3 -A1 VIOLATION /tmp/try.$$.log; tail -2 /tmp/try.$$.log; rm -f /tmp/try.$$.log
+W=/tmp/wt/$C-$$
+mkdir -p /tmp/wt
+git -C /repo worktree add -q --detach $W HEAD || exit 3
+if ! git -C $W apply "$P"; then echo "patch does not apply"; git -C /repo worktree remove --force $W; exit 3; fi
+VERIF_REPO=$W VERIF_EVIDENCE_DIR=/tmp/wt/ev-$$ VERIF_REPLAY_DIR=/tmp/wt/rp-$$ python3 /verif/run.py $C $T > /tmp/wt/log-$$ 2>&1; rc=$?
+git -C /repo worktree remove --force $W; rm -rf /tmp/wt/ev-$$ /tmp/wt/rp-$$
+grep -c VIOLATION /tmp/wt/log-$$ | sed "s/^/violations: /"; grep -m3 -A1 VIOLATION /tmp/wt/log-$$ | cut -c1-400; tail -2 /tmp/wt/log-$$ | cut -c1-300; rm -f /tmp/wt/log-$$
 echo "exit=$rc"
